@@ -444,6 +444,9 @@ pub fn analyse(rep: &RunReport) -> Verdict {
         if !is_prefix {
             v(&mut out, prop, "items_wrong", &[pid], 0, format!("stream {}: processed items {:?} are not a prefix of the pushed items {:?}", s, processed, st.pushed));
         }
+        if st.cancelled_items > 0 && !world.objs[st.obj.unwrap_or(0)].panic_injected {
+            v(&mut out, prop, "item_processing_cancelled", &[pid], 0, format!("stream {}: the processing future of {} item(s) was destroyed before it had completed", s, st.cancelled_items));
+        }
         if st.drops > 1 || st.closure_drops > 1 {
             v(&mut out, "C14", "pipe_state_dropped_twice", &[pid], 0, format!("stream {} dropped {} times, closure {} times", s, st.drops, st.closure_drops));
         }
@@ -552,6 +555,10 @@ pub fn analyse(rep: &RunReport) -> Verdict {
     }
 
     out.dedup_by(|a, b| a.prop == b.prop && a.kind == b.kind && a.ops == b.ops);
+    if !out.is_empty() {
+        // a controller brought down by the damage a violation did (poisoned locks, ...) is not a harness fault
+        verdict.harness_error = None;
+    }
     verdict.violations = out;
     verdict
 }
@@ -749,6 +756,13 @@ fn blame_hang(rep: &RunReport, live: Live, out: &mut Vec<Violation>, verdict: &m
         }
         let describe = |r: &OpRec| format!("{} {} on object {} (queue state/len/waiters {:?}, pool threads/busy/scheduled/max {:?}): {}", r.tag, r.id, o, peek, facts.sched_peek, where_);
 
+        // 0. the closure of a sync has run to its end but the caller is still blocked in the call
+        for r in ops.iter().filter(|r| r.obj == Some(o) && r.kind == Kind::Sync && r.outcome == CallOutcome::InCall && r.fin.is_some() && r.fin_kind == FinKind::Normal) {
+            if matches!(task_state(r.thread), Some(TState::Blocked(_))) {
+                v(out, "C04", "sync_did_not_return_after_running", &[r.id], r.fin.unwrap_or(0), describe(r));
+                props_found += 1;
+            }
+        }
         // 1. a caller asleep in sync although it could run the queue itself
         for r in ops.iter().filter(|r| r.obj == Some(o) && r.kind == Kind::Sync && r.outcome == CallOutcome::InCall && r.start.is_none()) {
             if matches!(task_state(r.thread), Some(TState::Blocked(Wait::Condvar(_)))) && matches!(qstate, Some(0) | Some(1)) {
@@ -763,6 +777,16 @@ fn blame_hang(rep: &RunReport, live: Live, out: &mut Vec<Violation>, verdict: &m
             }
         }
 
+        // an accepted background operation that was started, whose event has fired, and that is never completed is
+        // also a lost operation (C03) and, for operations with a returned future, one that did not run to completion (C07)
+        let also_stranded = |out: &mut Vec<Violation>, hd: &OpRec| {
+            if full && hd.kind.background() && hd.nested_in.is_none() {
+                v(out, "C03", "operation_never_completed", &[hd.id], hd.start.unwrap_or(0), format!("{} {} on object {} was started, its event has fired, but it never completed: {}", hd.tag, hd.id, o, where_));
+                if hd.kind != Kind::Desync {
+                    v(out, "C07", "operation_did_not_complete", &[hd.id], hd.start.unwrap_or(0), format!("{} {} on object {} never ran to completion although the pool had a thread", hd.tag, hd.id, o));
+                }
+            }
+        };
         // 2. an operation inside the object that does not finish
         let inside: Vec<&OpRec> = ops.iter().filter(|r| r.obj == Some(o) && r.kind.has_body() && r.start.is_some() && r.fin.is_none()).collect();
         for hd in &inside {
@@ -792,12 +816,14 @@ fn blame_hang(rep: &RunReport, live: Live, out: &mut Vec<Violation>, verdict: &m
                             Some(0) | Some(1) | Some(5) => {
                                 if pool_available && full {
                                     v(out, "C06", "woken_but_not_run", &[hd.id], hd.start.unwrap_or(0), describe(hd));
+                                    also_stranded(out, hd);
                                     props_found += 1;
                                 }
                             }
                             // still parked although the event has fired
                             Some(3) | Some(4) => {
                                 v(out, "C06", "wake_lost", &[hd.id], hd.start.unwrap_or(0), describe(hd));
+                                also_stranded(out, hd);
                                 props_found += 1;
                             }
                             // marked as running / awoken, but the thread that runs it from inside a call is still parked
@@ -806,6 +832,7 @@ fn blame_hang(rep: &RunReport, live: Live, out: &mut Vec<Violation>, verdict: &m
                                     || (world.objs[co].drop_inv.is_some() && world.objs[co].drop_ret.is_none() && matches!(task_state(world.objs[co].dropper), Some(TState::Blocked(Wait::Park))));
                                 if parked_runner {
                                     v(out, "C06", "runner_left_parked", &[hd.id], hd.start.unwrap_or(0), describe(hd));
+                                    also_stranded(out, hd);
                                     props_found += 1;
                                 }
                             }
